@@ -26,6 +26,13 @@ import importlib
 from . import core
 
 _NOTE = '_explore_succ'
+_known = {}          # known-findings entries read ONCE by the parent (workers inherit them through fork) instead of once
+                     # per job: thousands of small jobs must not race with somebody rewriting known_findings.json
+
+
+def _use_known(ctx):
+    if ctx.pid in _known:
+        ctx._known = _known[ctx.pid]
 
 
 def _expand_one(ctx, S, hist, src_id, out):
@@ -43,6 +50,7 @@ def _expand_one(ctx, S, hist, src_id, out):
 def job_init(ctx, sysmod, jobidx, inits):
     """Initial states: one fresh object per initial event."""
     S = importlib.import_module(sysmod)
+    _use_known(ctx)
     out = []
     for ev in inits:
         _expand_one(ctx, S, [ev], None, out)
@@ -52,6 +60,7 @@ def job_init(ctx, sysmod, jobidx, inits):
 def job_expand(ctx, sysmod, level, jobidx, items):
     """All enabled operations applied to every source state of the chunk (items = [[hist, state id], ...])."""
     S = importlib.import_module(sysmod)
+    _use_known(ctx)
     out = []
     for hist, src_id in items:
         hist = [list(e) for e in hist]
@@ -76,6 +85,8 @@ def explore(ctx, sysmod, inits, max_depth=None, max_states=50000, max_transition
     remaining frontier is left unexpanded and ctx.caps says so (the run is then not reported as exhaustive).
     """
     S = importlib.import_module(sysmod)
+    from . import findings
+    _known[ctx.pid] = findings.load_known(ctx.pid)
     planned = 0
     seen = {}
     jobs = [('job_init', (sysmod, j, inits[lo:lo + init_chunk])) for j, lo in enumerate(range(0, len(inits), init_chunk))]
